@@ -100,6 +100,23 @@ mut("c03-verifier-trusts-first-node-as-root", ["C03"], HX,
     "        with trie.at_root(trie._set_raw_node(proof[0]) if proof else root_hash) as proven_snapshot:",
     suite=None, note="the claimed root is ignored: the first delivered node is used as root")
 
+mut("c09-simulated-leaf-loses-value", ["C09"], "trie/exceptions.py",
+    "                (),\n                actual_node.value,\n                trimmed_suffix,",
+    "                (),\n                b\"\",\n                trimmed_suffix,",
+    suite=False, note="the simulated leaf node of a partial traversal has no value: a walk that lands inside a leaf misses the key")
+mut("c09-simulated-extension-trimmed-short", ["C09"], "trie/exceptions.py",
+    "                trimmed_extension = Nibbles(extension[len(key_tail) :])",
+    "                trimmed_extension = Nibbles(extension[len(key_tail) - 1 :])",
+    suite=False, note="simulated extension keeps one nibble too many")
+mut("c09-partial-leaf-traversal-reads-blank", ["C09"], HX,
+    "                if key_starts_with(leaf_key, remaining_key):\n                    return node, remaining_key\n",
+    "                if leaf_key == remaining_key:\n                    return node, remaining_key\n",
+    suite=None, note="traversing to a prefix inside a leaf path reports blank: a walk whose prefix moved into a leaf misses the key")
+mut("c09-branch-annotation-misses-nibble-f", ["C09"], "trie/utils/nodes.py",
+    "Nibbles((nibble,)) for nibble in range(16) if bool(node_body[nibble])",
+    "Nibbles((nibble,)) for nibble in range(15) if bool(node_body[nibble])",
+    suite=None, note="sub_segments of a branch omit child f")
+
 quiet("q-no-shortcircuit-delete-branch", ["C01", "C02", "C06"], HX,
       "        if encoded_sub_node == node[trie_key[0]]:\n            # If no change, (value already empty), short-circuit and skip any other work\n            return node\n\n        node[trie_key[0]] = encoded_sub_node",
       "        node[trie_key[0]] = encoded_sub_node",
@@ -107,6 +124,10 @@ quiet("q-no-shortcircuit-delete-branch", ["C01", "C02", "C06"], HX,
 quiet("q-exception-message", ["C01", "C05", "C06"], HX,
       "\"Cannot set/delete simultaneously, run them in serial\"",
       "\"set/delete are not re-entrant\"", note="messages are never compared")
+
+quiet("q-frontier-cache-keeps-parent-entry", ["C09"], "trie/fog.py",
+      "            self._cache.pop(Nibbles(node_prefix), None)\n\n        # add cache entry",
+      "            pass\n\n        # add cache entry", note="not evicting the parent entry only wastes memory")
 
 if __name__ == "__main__":
     here = os.path.dirname(os.path.abspath(__file__))
